@@ -302,7 +302,13 @@ int run_phantom_micro(const Args& a) {
         uint64_t seen = 0;
         Session ses;
         while (true) {
-            while (gen.load(std::memory_order_acquire) == seen && !quit.load()) { _mm_pause(); }
+            for (uint64_t w = 0; gen.load(std::memory_order_acquire) == seen && !quit.load(); ++w) {
+                if (w < 3000) {
+                    _mm_pause();
+                } else {
+                    sched_yield();
+                }
+            }
             if (quit.load()) { break; }
             seen = gen.load();
             ses.reenter();
@@ -330,7 +336,13 @@ int run_phantom_micro(const Args& a) {
                 for (auto& it : items) { result_keys.push_back(it.key); }
                 if (r2l) { std::reverse(result_keys.begin(), result_keys.end()); }
             }
-            while (writer_done.load(std::memory_order_acquire) == 0) { _mm_pause(); }
+            for (uint64_t w = 0; writer_done.load(std::memory_order_acquire) == 0; ++w) {
+                if (w < 3000) {
+                    _mm_pause();
+                } else {
+                    sched_yield();
+                }
+            }
             all_fresh = true;
             for (auto& [body, ptr] : nv) {
                 if (ptr->get_stable_version() != body) { all_fresh = false; }
@@ -346,7 +358,13 @@ int run_phantom_micro(const Args& a) {
         uint64_t seen = 0;
         Session ses;
         while (true) {
-            while (gen.load(std::memory_order_acquire) == seen && !quit.load()) { _mm_pause(); }
+            for (uint64_t w = 0; gen.load(std::memory_order_acquire) == seen && !quit.load(); ++w) {
+                if (w < 3000) {
+                    _mm_pause();
+                } else {
+                    sched_yield();
+                }
+            }
             if (quit.load()) { break; }
             seen = gen.load();
             ses.reenter();
@@ -441,7 +459,13 @@ int run_phantom_micro(const Args& a) {
         writer_done.store(0);
         done.store(0);
         gen.fetch_add(1, std::memory_order_release);
-        while (done.load(std::memory_order_acquire) < 2) { _mm_pause(); }
+        for (uint64_t w = 0; done.load(std::memory_order_acquire) < 2; ++w) {
+            if (w < 3000) {
+                _mm_pause();
+            } else {
+                sched_yield();
+            }
+        }
         rep.eval();
         // ---- verdict
         bool overlap = winv < rresp && wresp > rinv;
